@@ -14,6 +14,7 @@ import common as C
 import fuzzylite as fl
 from props import c04
 from streams import highest_activated as S_HIGH
+from streams import wave5x as S_W5
 
 sys.set_int_max_str_digits(0)
 
@@ -27,13 +28,15 @@ TIE_A = (["Norm."] + [f"Term.{c}.membership" for c in MONO + NONMONO] + [f"Term.
             "code:fuzzylite.defuzzifier.WeightedSum.defuzzify",
             "code:fuzzylite.term.Linear.membership", "code:fuzzylite.term.Constant.membership",
             "code:fuzzylite.term.Term.update_reference", "code:fuzzylite.term.Linear.update_reference",
-            "code:fuzzylite.term.Aggregated.range", "code:fuzzylite.term.Aggregated.highest_activated_term"])
+            "code:fuzzylite.term.Aggregated.range", "code:fuzzylite.term.Aggregated.highest_activated_term",
+            "code:fuzzylite.defuzzifier.WeightedDefuzzifier.infer_type"])
 RULE = ("WeightedAverage and WeightedSum x {Automatic, TakagiSugeno, Tsukamoto} x fuzzy outputs of 0-6 activations over 1-4 "
         "terms (Constant / Linear / Function(polynomial in x) / monotonic Ramp, Sigmoid, Concave, SShape, ZShape / non-monotonic "
         "Triangle, Trapezoid, Rectangle, Gaussian, Bell) with repetitions x every S-norm or none x scalar and batch degrees "
         "incl. exact 0, 1, NaN/inf; mixtures that make type inference fail and terms without tsukamoto are part of the "
         "stream (same exception in model and implementation). Also compared: grouped_terms() and activation_degree(). "
         "A case is non-trivial when the result is a finite number; distinct = distinct input")
+RULE += (" Stream `infer-tree` (fv/streams/wave5x.py): WeightedDefuzzifier.infer_type on nested Aggregated / Variable / Activated / plain components against Op.Weighted.inferComp.")
 RULE += (" Stream `highest-activated` (fv/streams/highest_activated.py): Aggregated.highest_activated_term (scalar degrees, 1-D degrees of one entry, batches -> ValueError) and Aggregated.range against Op.Weighted.highestActivated.")
 ASSUMPTIONS = ["numbers: 1e-9 abs+rel relative to the magnitude of the accumulated terms",
                "Arc is left out (C03/F1: its centre is computed with rounding); Function terms are polynomials in x whose "
@@ -219,6 +222,8 @@ def key(case):
 
 
 def oracle(case):
+    if case.get("stream") == S_W5.TREE:
+        return S_W5.oracle(case)             # WeightedDefuzzifier.infer_type on nested components
     if case.get("stream"):
         return S_HIGH.oracle(case, sys.modules[__name__])    # Aggregated.highest_activated_term / range
     B = batch_size(case)
@@ -527,6 +532,8 @@ def correspond(ctx):
     st.count("oracle", n_or)
     # Aggregated.highest_activated_term / range against Op.Weighted.highestActivated (model of the code tie)
     mism += S_HIGH.run(ctx, sys.modules[__name__])
+    # WeightedDefuzzifier.infer_type on nested components against Op.Weighted.inferComp (model of `code_inferType_tree`)
+    mism += S_W5.run_tree(ctx)
     return mism
 
 
